@@ -4,7 +4,7 @@ CONSTANTS
   Kinds = {"find", "bool", "err", "repl"}
   MaxCalls = 2
   Runners = {1, 2, 3}
-  Keys = {"k1", "k2", "k3"}
+  Keys = {"k1"}
   MaxLRU = 2
   Recheck = TRUE
 INVARIANTS OneOwner NotIdleHeld IdleIsFull CleanAtScan RightProgram LRUBounded LRUConsistent
